@@ -1263,6 +1263,9 @@ class SourceFinder(object):
         # don't reload already loaded data
         if self.global_data.img is not None:
             return
+        # Use the first slice of the 3rd dimension if not specified
+        if cube_index is None:
+            cube_index = 0
         # img = FitsImage(filename, hdu_index=hdu_index,
         #                 beam=beam, cube_index=cube_index)
         img, header = load_image_band(filename,
